@@ -68,6 +68,7 @@ let () =
        List.iter (fun (id, cs) -> ignore (Assign.run_case id cs obs); Buffer.add_string obs ("E " ^ id ^ "\n")) (Assign.parse_cases text);
        Buffer.add_string prog text
    | "compare" ->
+       Compare.has_ge := has "--has-ge";
        for k = 1 to count do
          let id = Printf.sprintf "%s%d" (get "--prefix" "c" args) k in
          let cs, kinds = Compare.gen_case () in
@@ -77,6 +78,7 @@ let () =
            List.iter bump kinds end
        done
    | "compare-run" ->
+       Compare.has_ge := (Sys.getenv_opt "C07_HAS_GE" = Some "1");
        let ic = open_in (get "--prog" "prog.txt" args) in
        let n = in_channel_length ic in
        let text = really_input_string ic n in
